@@ -176,7 +176,7 @@ class BUnit:
     # ---- obligations ----
     def prove_eq(self, name, lhs, rhs, side, unit, function=None, timeout_ms=20000, extra_path=(), minimal=False):
         """one obligation per element: lhs[i] == rhs[i] under side conditions"""
-        second = self.ctx.tier == "thorough"
+        second = self.ctx.tier == "thorough" and len(self.ctx.obligations) < 600     # cvc5 re-check of the first 600 obligations
         out = []
         if not minimal:
             side = self._with_env(side)
@@ -200,7 +200,7 @@ class BUnit:
         if not minimal:
             side = self._with_env(side)
         r = S.prove(goal, side=list(side), timeout_ms=timeout_ms, name=name,
-                    outdir=os.path.join(self.ctx.out, "smt2"), second_opinion=self.ctx.tier == "thorough")
+                    outdir=os.path.join(self.ctx.out, "smt2"), second_opinion=self.ctx.tier == "thorough" and len(self.ctx.obligations) < 600)
         self.record(name, unit, r, function, "lemma %s" % name)
         return r
 
